@@ -708,6 +708,15 @@ fn oracle_c05(ctx: &mut Ctx, idx: usize, c: &SCase, b: &Built, o: &Outcome) {
                 ctx.fail(idx, "search/nopath-but-reachable", format!("destination {} is reachable from {} but 'no path' was reported", t, src));
             }
         }
+        (Some(t), Outcome::Err(k)) if k == "internal" => {
+            // an internal error is never the answer to a query; for an unreachable destination the
+            // answer is 'no path' (a failing model — access, traversal, limit — has its own kind)
+            if t != src && !reach[t] {
+                ctx.fail(idx, "search/unreachable-not-nopath", format!("destination {} is unreachable from {} but the search ended in an internal error instead of 'no path'", t, src));
+            } else {
+                ctx.fail(idx, "search/internal-error", format!("search {} -> {} ended in an internal error", src, t));
+            }
+        }
         (None, Outcome::Ok(r)) => {
             if let Some(tree) = r.trees.first() {
                 for v in 0..c.coords.len() {
